@@ -28,11 +28,11 @@ CHECKS['C06'] = {
         'zero collections => Run fails (CheckSanityLate) is taken from the property anchors / DESIGN, not from the statement text',
     ],
     'units': [
-        unit('paging', 'keepbalance_c06', '^TestVerifC06Paging$', {'shards': 16, 'checks': 300}, {'shards': 16, 'checks': 4000, 'timeout': 1500}),
+        unit('paging', 'keepbalance_c06', '^TestVerifC06Paging$', {'shards': 16, 'checks': 300}, {'shards': 16, 'checks': 6000, 'timeout': 3000}),
         unit('paging_lossy', 'keepbalance_c06', '^TestVerifC06PagingLossy$', {'shards': 4, 'checks': 100}, {'shards': 8, 'checks': 2000, 'timeout': 1500}),
-        unit('sweep', 'keepbalance_c06', '^TestVerifC06SweepAbort$', {'shards': 16, 'checks': 2}, {'shards': 16, 'checks': 40, 'timeout': 1800}),
+        unit('sweep', 'keepbalance_c06', '^TestVerifC06SweepAbort$', {'shards': 16, 'checks': 2}, {'shards': 16, 'checks': 60, 'timeout': 3000}),
         unit('sweep_zero', 'keepbalance_c06', '^TestVerifC06SweepZeroCollections$', {'shards': 2, 'checks': 15}, {'shards': 4, 'checks': 200, 'timeout': 1500}),
-        unit('index_readers', 'keepbalance_c06', '^TestVerifC06IndexTruncation$', {'shards': 16, 'checks': 2}, {'shards': 16, 'checks': 32, 'timeout': 1800}),
+        unit('index_readers', 'keepbalance_c06', '^TestVerifC06IndexTruncation$', {'shards': 16, 'checks': 2}, {'shards': 16, 'checks': 48, 'timeout': 3000}),
         unit('index_producer', 'keepstore_c06', '^TestVerifC06IndexProducer$', {'shards': 8, 'checks': 150}, {'shards': 16, 'checks': 3000, 'timeout': 1500}),
     ],
 }
